@@ -2,7 +2,6 @@ package grpcserver
 
 import (
 	"context"
-	"fmt"
 	"math/big"
 	"strconv"
 
@@ -99,12 +98,12 @@ func (svr *TrustMatrixServer) Update(
 				err1 error
 			)
 			if i, err1 = strconv.Atoi(entry.Truster); err1 != nil {
-				return fmt.Errorf("invalid truster %#v: %w",
-					entry.Truster, err1)
+				return status.Errorf(codes.InvalidArgument,
+					"invalid truster %#v: %v", entry.Truster, err1)
 			}
 			if j, err1 = strconv.Atoi(entry.Trustee); err1 != nil {
-				return fmt.Errorf("invalid trustee %#v: %w",
-					entry.Trustee, err1)
+				return status.Errorf(codes.InvalidArgument,
+					"invalid trustee %#v: %v", entry.Trustee, err1)
 			}
 			if i < 0 || j < 0 {
 				return status.Errorf(codes.InvalidArgument,
